@@ -42,6 +42,7 @@ class InputSpec(object):
         self.npos = 1                 # positional parameters (besides self)
         self.kwnames = []             # keyword parameter names
         self.nested = None            # ('in'|'out', idx) called from inside the body
+        self.mutates_args = False     # the body modifies its (mutable) arguments in place, e.g. request.setdefault(...)
         self.pool = []                # [(args, kwargs)] distinct in their captured part
         self.outcomes = {}            # (resolved alias, captured canon) -> ('value', v) | ('raise', cls)
 
@@ -123,6 +124,24 @@ def describe_steps(steps):
 
 
 # ---------------------------------------------------------------------------------------------- model of capture
+def touch_arguments(args, kwargs):
+    """What an intercepted body that 'normalises its request' does: in-place changes of the mutable arguments."""
+    touched = False
+    for v in list(args) + [kwargs[k] for k in sorted(kwargs)]:
+        if isinstance(v, list):
+            v.append('TOUCHED')
+        elif isinstance(v, dict):
+            v['TOUCHED'] = 1
+        elif isinstance(v, set):
+            v.add('TOUCHED')
+        elif isinstance(v, (D.Pt, D.Box)):
+            v.TOUCHED = True
+        else:
+            continue
+        touched = True
+    return touched
+
+
 def model_captured(ispec, args, kwargs):
     """Reference model of which argument values identify a call (independent of the repository's key builder).
     `args` excludes the instance.  Returns a canonical form."""
@@ -146,7 +165,7 @@ def resolved_alias(ispec, dep_name):
 
 # ---------------------------------------------------------------------------------------------- generation
 def gen_service(tape, run, max_inputs=4, max_outputs=3, max_steps=12, threads=False, allow_faulty_ops=False,
-                rich_missing=False, value_depth=2, max_calls_per_alias=None):
+                rich_missing=False, value_depth=2, max_calls_per_alias=None, arg_mutating_inputs=False):
     spec = ServiceSpec()
     odd_aliases = tape.draw(3) == 2
     op = spec.op
@@ -160,6 +179,8 @@ def gen_service(tape, run, max_inputs=4, max_outputs=3, max_steps=12, threads=Fa
         if odd_aliases and tape.draw(4) == 3:
             alias = SHORT_ALIASES[i % len(SHORT_ALIASES)]      # aliases that are substrings of the key syntax itself
         spec.inputs.append(gen_input(tape, run, i, value_depth, rich_missing, alias=alias))
+        if arg_mutating_inputs and tape.draw(4) == 3:
+            spec.inputs[-1].mutates_args = True
     for j in range(noutputs):
         o = OutputSpec(j, alias=(tape.choice(OUT_ALIASES) % j) if odd_aliases else None)
         o.kind = 'instance' if tape.draw(3) < 2 else 'static'
@@ -345,6 +366,8 @@ class Env(object):
         if nested_inside:
             return ('inner', ispec.alias)
         key = (resolved_alias(ispec, dep.name if dep is not None else 'd0'), model_captured(ispec, args, kwargs))
+        if ispec.mutates_args and touch_arguments(args, kwargs):
+            self.run.probe('input_body_mutated_its_argument')
         out = call.get('outcome_override') or ispec.outcomes.get(key)
         if out is None:
             out = ('value', ('unplanned', ispec.alias))
@@ -754,6 +777,9 @@ class Interp(object):
         fault = st[4]
         args = tuple(args)
         kwargs = dict(kwargs)
+        if ispec.mutates_args:
+            # the body modifies its arguments: every call gets its own argument objects
+            args, kwargs = copy.deepcopy(args), copy.deepcopy(kwargs)
         call = self._begin(tname, fault=fault)
         if fault == 'key_unbuildable':
             if ispec.kind != 'property' and ispec.capture is None and ispec.npos:
@@ -1042,6 +1068,23 @@ def recording_in_faithful_domain(rec):
         return True
     inner = getattr(r, 'wrapped_recording', r)
     return V.doc_faithful({'d': dict(inner.recording_data), 'm': dict(inner.recording_metadata)})
+
+
+def live_recorded_outputs(rec):
+    """{output key: canon(value)} of the live recording object as the recorder filled it - no serializer involved, so
+    it can be compared with what the code sent even when the document as a whole is outside the faithful domain."""
+    r = rec.spy.created.get(rec.rec_id)
+    if r is None:
+        return None
+    inner = getattr(r, 'wrapped_recording', r)
+    out = {}
+    for k, v in list(inner.recording_data.items()):
+        if k.startswith('output:') and not k.endswith('result'):
+            try:
+                out[k] = V.canon(v)
+            except RecursionError:
+                out[k] = ('uncanonical',)
+    return out
 
 
 def failing_replay(spec, run, tape, cassette, rec_id, recorder, thread_factory=None):
